@@ -10,6 +10,7 @@ import (
 	"strconv"
 	"strings"
 	"sync"
+	"sync/atomic"
 	"syscall"
 	"time"
 
@@ -69,6 +70,7 @@ func c09Stress(w *core.Worker, i int) {
 	profiles := []string{"", "lock.checked=2,rlock.lock_created=1", "lock.created=1,commit.removed=2,rlock.checked=1", "hold.x.begin=3,rlock.rlock_created=2,cf.closed=1"}
 	delay := profiles[r.Intn(len(profiles))]
 	nclients, per := 12, 14
+	var stracedOps int64
 	var mu sync.Mutex
 	var ops []c09Op
 	var wg sync.WaitGroup
@@ -117,7 +119,14 @@ func c09Stress(w *core.Worker, i int) {
 					env = append(env, "VERIF_DELAY="+delay)
 				}
 				op.call = time.Since(t0).Nanoseconds()
-				res := core.RunProc(core.ProcOpts{Dir: d, Args: csvqArgs("-q", "-f", "CSV", "--without-header", "--wait-timeout", wt, prog), Env: env, Timeout: 120 * time.Second})
+				var prefix []string
+				if i%3 == 2 && cr.P(30) {
+					// syscall-level delays inside this process: every unlink / rename / exclusive create returns a few
+					// milliseconds late, which opens the instants between two control-file operations that no hook point marks
+					prefix = []string{"strace", "-f", "-o", "/dev/null", "-e", "trace=unlink,unlinkat,rename,renameat,renameat2", "-e", fmt.Sprintf("inject=unlink,unlinkat,rename,renameat,renameat2:delay_exit=%d", cr.Range(2000, 15000))}
+					atomic.AddInt64(&stracedOps, 1)
+				}
+				res := core.RunProc(core.ProcOpts{Dir: d, Args: csvqArgs("-q", "-f", "CSV", "--without-header", "--wait-timeout", wt, prog), Env: env, Prefix: prefix, Timeout: 120 * time.Second})
 				op.ret = time.Since(t0).Nanoseconds()
 				op.code, op.out = res.Code, strings.TrimSpace(res.Stdout)
 				if res.Code != 0 && res.Code != 8 {
@@ -130,6 +139,7 @@ func c09Stress(w *core.Worker, i int) {
 		}(c, cr)
 	}
 	wg.Wait()
+	w.Count("stress_transactions_with_delayed_syscalls", atomic.LoadInt64(&stracedOps))
 	// final state
 	fin := core.RunProc(core.ProcOpts{Dir: d, Args: csvqArgs("-q", "-f", "CSV", "--without-header", "SELECT n, m FROM counter; SELECT c, s FROM log;")})
 	lines := strings.Split(strings.TrimSpace(fin.Stdout), "\n")
